@@ -6,7 +6,10 @@ status_never_changed_after_git, journals_tolerant, later_commands_work + the O12
 number n of internal git calls is recorded (GIT_AI_VERIF_TRACE), then the command is re-run from an identical snapshot
 with GIT_AI_VERIF_FAULT=k:fail and k:abort for k = 1…n and compared with the plain-git twin (outcome class, U, notes
 readable, the NEXT commands — `git status`, then a `git commit` — still behave like plain git, no attribution invented)
-→ **corruption stream** over every file under .git/ai → **snapshot stream** (vlib/props/c07_snapshots.py: the blobs under
+→ **corruption stream** over every file under .git/ai → **node stream** (vlib/props/c07_nodes.py: every file AND directory under
+.git/ai × {deleted, truncated at line boundaries, bit flips, emptied, garbage, replaced by a directory / a file, replaced by a dangling
+symbolic link, mode 000, immutable} × {commit, amend, agent + human checkpoint then commit, stash push/pop/commit, rebase} against the
+plain-git twin, then C03's content oracle on notes and blame; Model/JournalStore.lean) → **snapshot stream** (vlib/props/c07_snapshots.py: the blobs under
 working_logs/<HEAD>/blobs damaged after an agent checkpoint, a person retypes lines at the agent's positions, commit; content
 oracle on note + blame; Model/Snapshot.lean vs the real note) → journal-reader correspondence (Lean model vs a real JSON
 parser's per-line verdicts) → search when a tie broke."""
@@ -15,6 +18,7 @@ import concurrent.futures, json, os, random, shutil, sys, time, traceback
 from vlib import common as C, e2e
 from vlib.props import c06_util as U
 from vlib.props import c07_snapshots as SNAP
+from vlib.props import c07_nodes as NODES
 
 PROP = "C07"
 THEOREMS = [
@@ -27,7 +31,11 @@ THEOREMS = [
     "GitAi.C07.initial_tolerant",
     "GitAi.C07.readers_in_source",
     "GitAi.C07.later_commands_work",
+    "GitAi.C07.later_commands_work_nodes",
+    "GitAi.C07.storage_failures_in_source",
     "GitAi.C07.modelHooks_wf",
+    "GitAi.C07.modelHooksS_wf",
+    "GitAi.C07.witness_blocked_storage_blocks_commit",
     "GitAi.C07.witness_O12_strict_reader_blocks_commit",
     "GitAi.C07.lost_snapshot_never_invents",
     "GitAi.C07.snapshot_reads_in_source",
@@ -485,6 +493,48 @@ def case_clone_stdout_full():
         return out
 
 
+def case_blocked(what):
+    """/repo db722e3c: a node of HEAD's working log (or of .git/ai itself) that cannot be read / written at all, with AI work staged and an
+    INITIAL file: two later commits (and a `git status`) must behave like plain git"""
+    def run_case():
+        with e2e.Env() as env:
+            lab = Lab(env)
+            lab.state_a()
+            ai = lab.tw.p.ai_dir()
+            wl = os.path.join(ai, "working_logs", lab.tw.p.head())
+            cp = os.path.join(wl, "checkpoints.jsonl")
+            if what == "checkpoints-directory":
+                os.unlink(cp)
+                os.makedirs(cp)
+            elif what == "checkpoints-dangling-link":
+                os.unlink(cp)
+                os.symlink(NODES.DANGLING, cp)
+            elif what == "blobs-file":
+                shutil.rmtree(os.path.join(wl, "blobs"))
+                open(os.path.join(wl, "blobs"), "w").write("not a directory\n")
+            elif what == "logs-dangling-link":
+                shutil.rmtree(os.path.join(ai, "logs"))
+                os.symlink(NODES.DANGLING, os.path.join(ai, "logs"))
+            else:
+                raise ValueError(what)
+            out = []
+            (prc, _, perr), (grc, _, _) = lab.both("status", "--porcelain", check=False)
+            if prc != grc:
+                out.append((f"corruption-changes-status:status:{what}", {"case": what, "proxy_rc": prc, "plain_rc": grc, "stderr_tail": perr[-400:]}))
+            for i in range(2):
+                lab.human("g.txt")
+                (prc, _, perr), (grc, _, _) = lab.both("commit", "-q", "-am", f"after blocked node {i}", check=False)
+                if prc != grc:
+                    out.append((f"corruption-changes-status:commit:{what}", {"case": what, "round": i, "proxy_rc": prc, "plain_rc": grc, "stderr_tail": perr[-400:]}))
+            d = lab.tw.compare_u()
+            if d:
+                out.append((f"corruption-changes-repository:commit:{what}", {"case": what, "components": [x[1]["component"] for x in d]}))
+            for sig, dd in notes_ok(lab):
+                out.append((f"{sig}:after-corruption:{what}", dd))
+            return out
+    return run_case
+
+
 def case_snapshot(job):
     """a fixed scenario of the snapshot stream (vlib/props/c07_snapshots.py): (mode, damage, person's edit, target, seed)"""
     def run_case():
@@ -499,7 +549,12 @@ CASES = {"o12-torn-checkpoints-with-initial": case_o12, "clone-stdout-full": cas
          # /repo 0b914ae9: INITIAL's recorded snapshot deleted, a person retypes the pending lines
          "lost-initial-snapshot-retyped": case_snapshot(("initial", "delete", "retype", "all", 7003)),
          # /repo 5a89ac1a: a directory at the path of the blob the checkpoint is about to write
-         "blob-slot-is-a-directory": case_snapshot(("ckpt", "directory", "keep", "all", 7004))}
+         "blob-slot-is-a-directory": case_snapshot(("ckpt", "directory", "keep", "all", 7004)),
+         # /repo db722e3c: private state that cannot be read or written at all
+         "checkpoints-replaced-by-directory": case_blocked("checkpoints-directory"),
+         "checkpoints-dangling-link": case_blocked("checkpoints-dangling-link"),
+         "blobs-replaced-by-file": case_blocked("blobs-file"),
+         "ai-logs-dangling-link": case_blocked("logs-dangling-link")}
 
 
 def phase_corpus(res):
@@ -585,6 +640,34 @@ def phase_journal_model(res, seed, count):
 
 # ------------------------------------------------------------------------------------------ main
 
+def extract_journal_store(res):
+    """regenerate Extracted/JournalStore.lean (handling of storage failures on the pre-commit path); returns the extractor's dict or None"""
+    try:
+        r = U.load_module("extract_journal_store", "extract/journal_store.py").main()
+    except Exception as e:
+        res.obligation("extract:journal_store", False, "extraction")
+        res.broken_tie("extract:journal_store", f"{type(e).__name__}: {e}"[:2000])
+        return None
+    res.obligation("extract:journal_store", True, "extraction")
+    res.extra["journal_store"] = r
+    return r
+
+
+def phase_nodes(res, tier, seed, label="node stream"):
+    t0 = time.time()
+    jobs = NODES.jobs_for(tier, seed)
+    with concurrent.futures.ThreadPoolExecutor(16) as ex:
+        outs = list(ex.map(NODES.run_part, jobs))
+    nfail = collect(res, outs, label)
+    runs = sum(o["runs"] for o in outs)
+    for i in range(runs):
+        res.count_case(f"node:{i}:{seed}:{label}")
+    kinds = sorted({t for o in outs for t in o["tags"] if t.startswith("node:")})
+    res.extra.setdefault("e2e", {})[label.replace(" ", "_")] = {"runs": runs, "distinct_node_damage_pairs": len(kinds), "wall_s": round(time.time() - t0, 1),
+                                                               "sequences": sorted({t for o in outs for t in o["tags"] if t.startswith("seq:")})}
+    return nfail, runs, kinds
+
+
 def collect(res, outs, what):
     nfail = 0
     for o in outs:
@@ -611,13 +694,18 @@ def run(tier, seed):
                 "non-zero status, diagnostic, U untouched, commit only; killed before/after git), every note parses, no person-written line credited to an "
                 "AI session, the NEXT `git status` + `git add` + `git commit` equal plain git's; corruption stream: every file under .git/ai × {truncation at "
                 "line boundaries and random bytes, bit flips, empty, garbage, deleted, replaced by a directory} then status / commit / checkout must equal "
-                "plain git; snapshot stream: {1 agent checkpoint, 2 sessions, pending INITIAL, agent checkpoint over INITIAL} × blobs {intact, deleted, emptied, "
+                "plain git; node stream: every file and directory under .git/ai (the directory itself included) × {deleted, truncated at line boundaries / a random byte, "
+                "bit flip, emptied, garbage, replaced by a directory (files) / a file (directories), replaced by a dangling symbolic link, mode 000, immutable (chattr +i)} × "
+                "{commit; commit --amend; agent + human checkpoint then commit -a; stash push, pop, commit -a; rebase then commit -a} (quick: HEAD's working-log nodes × the "
+                "damages that block reading / writing × every sequence, one rotating sequence for the rest) — each step's status and stdout and the final repository "
+                "state equal plain git's (git-ai's own checkpoint commands may fail but must leave U alone), notes parse, every line a note or git-ai blame credits "
+                "to a session carries a text that session wrote; snapshot stream: {1 agent checkpoint, 2 sessions, pending INITIAL, agent checkpoint over INITIAL} × blobs {intact, deleted, emptied, "
                 "truncated at a line boundary / mid-line, one byte → 0xFF, one bit flipped, replaced by a directory, blobs/ removed, checkpoints.jsonl + INITIAL "
                 "pointing to a non-existent sha} × a person {retypes the agent's lines in place, inserts above, both, moves to the end, rewrites all, nothing} then "
                 "commit: status as plain git, notes parse, every line the note / git-ai blame credit to a session has a content that session reported, and the "
                 "note equals Model/Snapshot.lean's with the fallbacks extracted from the source; non-trivial = every run; distinct = distinct (command, fault) / "
                 "(file, corruption) / snapshot scenario")
-    res.trusted = ["real git 2.39 (F2 of GitKernel is an assumption)", "extract/wrapper_tables.py", "extract/snapshot_reads.py", "vlib/props/c06_util.py observation of U",
+    res.trusted = ["real git 2.39 (F2 of GitKernel is an assumption)", "extract/wrapper_tables.py", "extract/snapshot_reads.py", "extract/journal_store.py", "vlib/props/c06_util.py observation of U",
                    "the fault hook of repository.rs (GIT_AI_VERIF_FAULT) injects at exec_git* only", "Lean 4.33 kernel"]
     res.assumptions = [
         "PARTIAL (DESIGN §10): fault points are git-ai's internal steps — end to end only the internal git subprocess calls (k:fail makes the call return an error "
@@ -625,8 +713,10 @@ def run(tier, seed):
         "F2 (an invocation with confined footprint and no runnable user hook leaves U unchanged) is a hypothesis of `GitKernel`, validated by the twin runs, not proved",
         "`panic` faults are covered by the model and the extracted catch_unwind skeleton only (the fault hook can make a call fail or abort the process, not panic); "
         "one real panic path (post-clone status line on a full stdout) was found by reading, fixed (5b890727) and is replayed from the corpus",
-        "corruption stream: files under .git/ai only (files replaced by directories, not directories by files); `.git/ai` itself turned into a file makes "
-        "RepoStorage::for_ai_dir panic before git — outside the stated quantifier, recorded as a limit",
+        "node stream: as root `mode 000` blocks nothing (tagged noop-as-root); `immutable` (chattr +i, needs file-system support, tagged when unsupported) is "
+        "what makes a node readable but unwritable there; FIFOs / device nodes / a full disk are not generated. Model/JournalStore.lean has ONE node per path and "
+        "three storage operations of the pre-commit checkpoint (read checkpoints, store snapshots, append); `working_log_for_base_commit`'s "
+        "`create_dir_all(..).unwrap()` panics inside catch_unwind when working_logs/<HEAD> cannot be created — git runs (dichotomy branch (a)), covered by the stream only",
         "snapshots (§6): one file, line-granular (content ids; the checkpoint's diff is Sys.checkpointAttr — tracker behaviour at line level is C16's); `Damaged` = a blob "
         "reads as written / truncated at a line boundary / not at all — a blob altered but still readable (mid-line truncation, a bit flip that stays UTF-8, forged content) "
         "is outside the theorem and covered by the oracles only; the theorem is about the commit path (human checkpoint + note). With the agent protocol (a human checkpoint before the agent edits, as in C03's `aiEdit`) "
@@ -637,6 +727,7 @@ def run(tier, seed):
     ]
     inv = U.phase_extract(res)
     snap_params = SNAP.extract(res)
+    store_params = extract_journal_store(res)
     C.phase_proofs(res, PROP, [t for t in THEOREMS if t.startswith("GitAi.C07.")])
     # the two C06 table theorems the dichotomy's hypotheses rest on
     ok6, per6, _ = C.audit_theorems("GitAiModel/Props/C06.lean", [t for t in THEOREMS if t.startswith("GitAi.C06.")])
@@ -715,6 +806,21 @@ def run(tier, seed):
     if cruns < 20:
         res.broken_tie("corruption-stream:vacuous", f"only {cruns} corruptions executed")
     U.validate_trace(res, inv, traces, "trace")
+
+    # node stream: every file and directory under .git/ai, damages that make it unreadable / unwritable included
+    nfail_n, nruns, nkinds = phase_nodes(res, tier, seed)
+    res.obligation(f"node stream: status, stdout, repository state equal plain git and the content oracle holds after {nruns} damages of files and "
+                   f"directories under .git/ai ({len(nkinds)} distinct node kind × damage pairs)", nfail_n == 0, "oracle")
+    if nruns < 50 or not any(":immutable" in k or ":replaced-by-directory" in k for k in nkinds) or not any(":dangling-symlink" in k for k in nkinds):
+        res.broken_tie("node-stream:vacuous", f"only {nruns} runs / blocking damages missing: {nkinds[:10]}")
+    if store_params is not None and (store_params["read"], store_params["snapshot"], store_params["append"]) != ("tolerate",) * 3 and not nfail_n:
+        # the source refuses on a storage failure (later_commands_work_nodes no longer checks) and this seed's plan missed it: more seeds
+        for extra_seed in (seed + 101, seed + 202):
+            f2, _, _ = phase_nodes(res, tier, extra_seed, label="node stream (search after a broken tie)")
+            if f2:
+                break
+        res.extra["search_nodes"] = ("the pre-commit path refuses on a storage failure; the node stream was re-run with two more seeds: "
+                                     + ("a failing input was found" if res.violations else "no failing input found"))
 
     # snapshot stream: damaged / missing checkpoint snapshots never invent attribution
     snap_fail, snap_bad = SNAP.phase(res, tier, seed, snap_params)
